@@ -109,7 +109,16 @@ def runTorus (c : Case) : Res :=
         if c.ob1 "tds_is_valid" != "ok" then bad := s!"periodic result is not structurally valid: {c.ob "tds_is_valid"}" :: bad
         if c.ob1 "nbfacets" != "0" then bad := s!"periodic result has {c.ob1 "nbfacets"} boundary facets" :: bad
         if c.ob1 "chi" != "0" then bad := s!"periodic result has Euler characteristic {c.ob1 "chi"} ≠ 0" :: bad
-        if K.verts.length != ins.length then bad := s!"periodic result has {K.verts.length} vertices for {ins.length} distinct input points" :: bad
+        -- "each input point once": inputs that coincide ON THE TORUS (closer than the 1e-10
+        -- duplicate tolerance after wrapping, e.g. -1e-12·L and 0) are legitimately merged; when
+        -- some pair is that close the count is not demanded
+        let wrapped : List (List Q) := ins.map (fun (_, p, _) => (List.range K.D).map (fun a =>
+          wrap (Q.ofDy (dom.getD a Dy.zero)) (Q.ofDy (p.getD a Dy.zero))))
+        let circ1 (l x y : Q) : Q := let d0 := Q.abs (x - y); let d1 := Q.abs (d0 - l); if Q.lt d0 d1 then d0 else d1
+        let close (u v : List Q) : Bool := (List.range K.D).all (fun a =>
+          Q.lt (circ1 (Q.ofDy (dom.getD a Dy.zero)) (u.getD a (Q.ofInt 0)) (v.getD a (Q.ofInt 0))) ⟨1, 10 ^ 8⟩)
+        let anyClose := (wrapped.zipIdx).any (fun (u, i) => (wrapped.zipIdx).any (fun (v, j) => i < j && close u v))
+        if !anyClose && K.verts.length != ins.length then bad := s!"periodic result has {K.verts.length} vertices for {ins.length} distinct input points" :: bad
       if !bad.isEmpty then return { status := "ORACLE", detail := " ; ".intercalate bad.reverse, stats := base.stats }
       return { status := "ok", stats := s!"torus.ok.periodic{c.arg "periodic"}" :: base.stats }
   | _, _ => { status := "DISAGREE", detail := "cannot parse toroidal case" }
